@@ -296,15 +296,29 @@ oracle("c18.cancelrace.lines")(rcheck)
 
 # ------------------------------------------------------------------ poll function failing while a cancel lands
 def _pparams():
-    return [dict(kind=k, when=w) for k in ("yield_exc", "raise") for w in (0.0, 1.0)]
+    return [dict(kind=k, when=w) for k in ("yield_exc", "raise") for w in (0.0, 1.0)] + \
+        [dict(kind="raise_late_registration", when=0.0)]
 
 
 def pbody(mc, p):
     from more_executors._impl.poll import PollExecutor
     base = ManualExecutor(mc, mode="manual")
 
+    raised = [False]
+
     def poll_fn(ds):
-        mc.emit("poll", n=len(ds), t=mc.clock)
+        mc.emit("poll", n=len(ds), t=mc.clock, shown=tuple(d.result for d in ds))
+        if p["kind"] == "raise_late_registration":
+            # raises once, when first shown something; later calls resolve what they are shown
+            if ds and not raised[0]:
+                raised[0] = True
+                mc.point()
+                mc.emit("poll.raise", shown=tuple(d.result for d in ds))
+                mc.point()
+                raise E2("fault:poll_fn")
+            for d in ds:
+                d.yield_result("y:" + d.result)
+            return None
         if mc.clock < p["when"]:
             return None
         mc.point()
@@ -317,6 +331,16 @@ def pbody(mc, p):
     f0 = ex.submit(lambda: "r0")
     f1 = ex.submit(lambda: "r1")
     mc.spawn(base.worker_loop, "worker", client=False)
+    if p["kind"] == "raise_late_registration":
+        # two delegate workers: the second delegate may finish while the failing poll call runs
+        mc.spawn(base.worker_loop, "worker2", client=False)
+        mc.sleep(6)
+        fp = ex.submit(lambda: "rp")
+        mc.sleep(6)
+        mc.observe(f0=snapshot(f0), f1=snapshot(f1), probe=snapshot(fp))
+        ex.shutdown(False)
+        base.down = True
+        return
 
     def canceller():
         if p["when"]:
@@ -340,6 +364,21 @@ def pbody(mc, p):
 
 def pcheck(x):
     if not x.require(x.end == "done" and "probe" in x.obs, "bad-ending", end=x.end):
+        return
+    if x.p["kind"] == "raise_late_registration":
+        shown = set()
+        for e in x.events("poll.raise"):
+            shown |= set(e["shown"])
+        for who, r in (("f0", "r0"), ("f1", "r1"), ("probe", "rp")):
+            s = x.obs[who]
+            if r in shown:
+                x.require(s == ("err", "E2(fault:poll_fn)"), "fault-lost", site="poll_fn", who=who, detail=repr(s))
+            else:
+                # never shown to the failing call: it must be untouched by the fault
+                x.require(s == ("ok", "y:" + r), "unrelated-future-affected", who=who, site="poll_fn",
+                          detail="%s is %r but the raising poll call was shown %r" % (who, s, sorted(shown)))
+        for name, exc in x.deaths:
+            x.require(False, "thread-died", thread=name.split("-")[0], exc=exc[0], detail=exc[2][-600:])
         return
     want = "E2(fault:poll_fn)" if x.p["kind"] == "raise" else None
     for who, r in (("f1", "r1"), ("probe", "rp")):
@@ -433,7 +472,8 @@ oracle("c18.fault.lines")(check)
 PLAN = {
     "quick": [dict(harness="c18.fault", bound=1), dict(harness="c18.fault.lines", bound=0),
               dict(harness="c18.cancelrace", bound=2), dict(harness="c18.cancelrace.lines", bound=1),
-              dict(harness="c18.pollrace", bound=1), dict(harness="c18.blockcount", bound=1)],
+              dict(harness="c18.pollrace", bound=1), dict(harness="c18.pollrace", bound=2, select=lambda p: p["kind"] == "raise_late_registration"),
+              dict(harness="c18.blockcount", bound=1)],
     "thorough": [dict(harness="c18.fault", bound=2), dict(harness="c18.fault.lines", bound=1),
                  dict(harness="c18.cancelrace", bound=3), dict(harness="c18.cancelrace.lines", bound=2),
                  dict(harness="c18.pollrace", bound=2), dict(harness="c18.blockcount", bound=2)],
